@@ -9,9 +9,9 @@ __CPROVER_requires(__CPROVER_is_fresh(subject, 32) && __CPROVER_is_fresh(out, 2 
 __CPROVER_assigns(R(rs)->m_Pos, __CPROVER_object_whole(out), __CPROVER_object_whole(layer_k))
 RS_KEEPS(rs)
 __CPROVER_ensures(RET != 0 ==> (out[1] >= 0 && out[1] <= MAX_LAYERS))
-/* raw layout: [n<=4][index] [n<=4][numLayers] [1][4] [00 00 00 20] then numLayers x ([32][32 bytes]) : the cursor advanced by exactly that much */
+/* raw layout: [n<=4][index] [n<=4][numLayers] [n<=4][= 4] [00 00 00 20] then numLayers x ([32][32 bytes]) : the cursor advanced by exactly that much */
 __CPROVER_ensures(RET != 0 ==> R(rs)->m_Pos >= OLDPOS(rs) + 2 + 2 + 4 + 33 * (size_t)out[1])
-__CPROVER_ensures(RET != 0 ==> R(rs)->m_Pos <= OLDPOS(rs) + 5 + 5 + 2 + 4 + 33 * (size_t)out[1]);
+__CPROVER_ensures(RET != 0 ==> R(rs)->m_Pos <= OLDPOS(rs) + 5 + 5 + 5 + 4 + 33 * (size_t)out[1]);
 
 int w_merkle_vbk_c(void* rs, const uint8_t* subject, int32_t* out)
 RS_FRESH(rs)
